@@ -60,8 +60,24 @@ func ioHook(tw *trace.Writer, heap map[int]bool) func(idx int, op *iorec.Op) {
 				}
 				rj = append(rj, []int{r.Lsn, r.Txn, r.Typ, r.Size, r.Prev, np})
 			}
-			if ioLite { // storm workloads: half a megabyte of records per write; only completeness is judged
-				rj = [][]int{}
+			if ioLite {
+				// storm workloads (half a megabyte of records per write): completeness of the write, its greatest LSN
+				// (one synthetic BEGIN-typed record of a transaction id nobody has) and the NewTablePage records (each
+				// under a transaction id of its own) are kept; the per-transaction chain rule is not judged there
+				lite := [][]int{}
+				maxLsn := -1
+				for _, r := range rj {
+					if r[0] > maxLsn {
+						maxLsn = r[0]
+					}
+					if r[2] == 9 {
+						lite = append(lite, []int{r[0], -(r[0] + 10), 9, r[3], -1, r[5]})
+					}
+				}
+				if maxLsn >= 0 {
+					lite = append(lite, []int{maxLsn, -(maxLsn + 1000010), 6, 20, -1, -1})
+				}
+				rj = lite
 			}
 			tw.Emit(map[string]interface{}{"ev": "WLog", "io": idx, "recs": rj, "parsed": ok, "bytes": len(op.Data)})
 		case "P":
